@@ -234,25 +234,62 @@ def column_oracle(c, cols):
     return None
 
 
+def compare_spec(c, impl, model, spec):
+    """the third stream: the bits the SPECIFICATION assigns (no encoder involved) against the
+    implementation's section 4 and against the model encoder.  None when all agree."""
+    st, b, subs = impl
+    has = 'bits' in spec
+    if spec.get('wf') and ('bits' in model) != has:
+        return 'specification and model encoder disagree on acceptance (contradicts C02_data_bits_canonical)'
+    if has and 'bits' in model and spec['bits'] != model['bits']:
+        return 'specification and model encoder write different bits (contradicts C02_data_bits_canonical)'
+    if st != 'ok':
+        if has:
+            return 'the specification assigns a bit stream, the implementation refuses (%s)' % st
+        return None
+    if not has:
+        return 'the implementation encodes values to which the specification assigns no bit stream'
+    pos, n = C.locate_sections(b)[4]
+    sec4 = ''.join('{:08b}'.format(x) for x in b[pos:pos + n])
+    if sec4 != spec['sec4']:
+        k = next((k for k, (x, y) in enumerate(zip(sec4, spec['sec4'])) if x != y), min(len(sec4), len(spec['sec4'])))
+        return ('section 4 differs from the specification (length, reserved octet, canonical bits, zero padding) at bit %d '
+                '(implementation %d bits, specification %d)' % (k, len(sec4), len(spec['sec4'])))
+    if 'msg' in spec:
+        if spec['msg'] is None:
+            return 'the specification assigns no whole message (a section value has no code), the implementation encodes one'
+        wb = bytes.fromhex(spec['msg'])
+        if wb != b:
+            return ('whole message differs from the canonical message of the specification (Spec.canonMessageBits) at byte %d '
+                    '(implementation %d, specification %d bytes)' % (first_byte_diff(wb, b), len(b), len(wb)))
+    return None
+
+
 class Result(object):
-    __slots__ = ('c', 'impl', 'model', 'why_model', 'oracle', 'both_refused')
+    __slots__ = ('c', 'impl', 'model', 'why_model', 'why_spec', 'spec', 'oracle', 'both_refused')
 
     def __init__(self, c, impl, model):
         self.c, self.impl, self.model = c, impl, model
         self.why_model = None
+        self.why_spec = None          # implementation vs the SPECIFICATION's bits (driver op canon-bits)
+        self.spec = None
         self.oracle = None
         self.both_refused = False
 
 
 def evaluate_encode(drv, treq, cases):
-    """C02: implementation encoder vs model encoder vs independently assembled message, and the
-    oracle on the implementation's bytes.  -> [Result]"""
+    """C02: implementation encoder vs model encoder vs independently assembled message vs the bits of the
+    SPECIFICATION (`Spec.canonDataBits`, theorem C02_data_bits_canonical), and the oracle on the
+    implementation's bytes.  -> [Result]"""
     enc = P.run_encode(drv, treq, cases)
     reqs = [treq]
     plan = []
     for c, impl, model in enc:
         st, b, subs = impl
-        ent = {}
+        ent = {'spec': len(reqs)}
+        js0 = C.make_message_json(c.ids, P.py_inputs(c.valss), c.comp, edition=c.edition)
+        reqs.append({'op': 'canon-bits', 'ids': c.ids, 'compressed': c.comp, 'vals': c.valss, 'edition': c.edition,
+                     'sections': msgs.model_sections(js0, c.edition)})
         if st == 'ok':
             bits = C.data_bits(b)
             ent['dec'] = len(reqs)
@@ -264,6 +301,13 @@ def evaluate_encode(drv, treq, cases):
                 js = C.make_message_json(c.ids, P.py_inputs(c.valss), c.comp, edition=c.edition)
                 ent['msg'] = len(reqs)
                 reqs.append(msgs.encode_req(js, c.edition, model['bits']))
+            if getattr(c, 'idx', 0) % 4 == 1:
+                # the same data in a message WITH section 2: implementation bytes vs the specification's message
+                js2 = C.make_message_json(c.ids, P.py_inputs(c.valss), c.comp, edition=c.edition, sec2='')
+                ent['impl2'] = C.impl_encode(js2)
+                ent['spec2'] = len(reqs)
+                reqs.append({'op': 'canon-bits', 'ids': c.ids, 'compressed': c.comp, 'vals': c.valss, 'edition': c.edition,
+                             'sections': msgs.model_sections(js2, c.edition)})
         plan.append(ent)
     res = drv.batch(reqs)
     out = []
@@ -271,6 +315,14 @@ def evaluate_encode(drv, treq, cases):
         r = Result(c, impl, model)
         st, b, subs = impl
         r.why_model = P.compare_encode(c, impl, model)
+        r.spec = res[ent['spec']]
+        r.why_spec = compare_spec(c, impl, model, r.spec)
+        if not r.why_spec and 'spec2' in ent:
+            w2 = compare_spec(c, ent['impl2'], model, res[ent['spec2']])
+            if w2:
+                r.why_spec = 'with section 2: ' + w2
+            else:
+                r.spec = dict(r.spec, with_section2=True)
         if st != 'ok':
             if 'err' in model:
                 r.both_refused = True
